@@ -184,9 +184,11 @@ def check_property(spec: PropertySpec, tier="quick", seed=0, src_root="/repo/src
         if found is None and target in spec.standin_for:
             # the executable form of this function's contract lives in a property-level stand-in: use it as the concretiser
             try:
-                sd = next(v for v in vars(E).values() if isinstance(v, Standin) and v.name == spec.standin_for[target])
+                sf = spec.standin_for[target]
+                sf_name, needle = sf if isinstance(sf, tuple) else (sf, None)  # (stand-in, substring naming this function in its messages)
+                sd = next(v for v in vars(E).values() if isinstance(v, Standin) and v.name == sf_name)
                 sr = sd.run(tier, rng, src_root)
-                hit = [(w, r) for w, r in sr.get("violations", []) if target.split(":")[-1].lstrip("_") in w or target.split(":")[-1] in w]
+                hit = [(w, r) for w, r in sr.get("violations", []) if target.split(":")[-1].lstrip("_") in w or target.split(":")[-1] in w or (needle is not None and needle in w)]
                 if hit:
                     what, recipe = hit[0]
                     name = (bad[0].name if bad else target + "/unbound")
